@@ -24,6 +24,7 @@ SPEC = {
     'exhaustive_text': 'all sequences up to the length bound over the 10-op alphabet (after the fixed prefix)',
     'assumptions': ['priorities are above TERMINATE', 'step()/run() are not re-entered from inside an action',
                     'run() executes events through Environment.step() (the unit the queue monitor observes)',
+                    'every queued event is created by the Event constructor (the creation hook)',
                     'pause/cancel never target asset id -1'],
     'timeout_s': {'quick': 600, 'thorough': 3600},
 }
